@@ -22,7 +22,10 @@ def run(ck, progs):
     ck.rule("C20.4", "counters are thread-local; stats_on_gvt writes the record and only then zeroes it; the auto-checkpoint reader runs before that")
     ck.rule("C20.5", "no completed GVT round is swallowed: every call site of gvt_phase_run forwards a non-zero result to the per-round consumers "
                      "(which write one record per thread) or lies after the shutdown barrier, where all threads run the same rounds")
+    ck.rule("C20.6", "multi-rank transfer: rank 0 expects from every other rank exactly the buffers that rank sends (global record, node "
+                     "records, one block per thread) and writes them in the layout of its own records")
     for cfg, P in progs.items():
+        _transfer(ck, P, cfg)
         _reader_writer(ck, P, cfg)
         _names(ck, P, cfg)
         _bumps(ck, P, cfg)
@@ -340,3 +343,47 @@ def _rounds(ck, P, cfg):
                 ck.violated("C20.5", inst, c.where, "a thread that leaves the worker loop in the middle of a GVT round completes that round here and discards its value, while the threads "
                             "that complete the same round inside their worker loop write a record for it: per-thread record counts of the statistics file differ by one", cfg)
     ck.expect("C20.5", n, 3, "call sites of gvt_phase_run")
+
+
+def _transfer(ck, P, cfg):
+    snd, rcv = P.fn("stats_files_send"), P.fn("stats_files_receive")
+    sends = list(snd.calls("mpi_blocking_data_send"))
+    in_loop = [c for c in sends if any(a.k in ("ForStmt", "WhileStmt") for a in c.ancestors())]
+    flat = [c for c in sends if c not in in_loop]
+    loop_bound = None
+    for c in in_loop:
+        lp = next(a for a in c.ancestors() if a.k in ("ForStmt", "WhileStmt"))
+        cond = X.strip(lp.children[2]) if lp.k == "ForStmt" else None
+        if cond is not None and cond.k == "BinaryOperator" and cond.op == "<":
+            loop_bound = X.show(cond.children[1])
+    recvs = list(rcv.calls("mpi_blocking_data_rcv"))
+    r_loop = [c for c in recvs if sum(1 for a in c.ancestors() if a.k in ("ForStmt", "WhileStmt")) >= 2]
+    r_flat = [c for c in recvs if c not in r_loop]
+    iters = None
+    for v in rcv.walk():
+        if v.k == "VarDecl" and v.name == "iters" and v.children:
+            iters = X.show(v.children[0])
+    inst = "transfer-count"
+    if len(flat) == 2 and len(in_loop) == 1 and loop_bound == "global_config.n_threads" and "stats_glob_cur" in X.show(X.callee_args(flat[0])[0]):
+        # sender: global record, node block, then n_threads blocks
+        if len(r_flat) == 1 and len(r_loop) == 1 and iters == "(sg_p->threads_count + 1)":
+            ck.holds("C20.6", inst, rcv.where, "sender: global record + node block + n_threads blocks; receiver: global record + (threads_count + 1) blocks", cfg)
+        else:
+            ck.violated("C20.6", inst, rcv.where, "the sender transmits the global record, the node block and one block per thread, but the receiver reads %d fixed buffer(s) and `%s` blocks: the ranks block in MPI or the file is truncated" % (len(r_flat), iters), cfg)
+    else:
+        ck.inconclusive("C20.6", inst, snd.where, "sender shape not recognised (%d flat, %d looped sends, bound %s)" % (len(flat), len(in_loop), loop_bound), cfg)
+    # threads_count the receiver relies on is what the sender's global record carries
+    fini = P.fn("stats_global_fini")
+    st = [n for n in fini.walk() if n.k == "BinaryOperator" and n.op == "=" and X.show(n.children[0]) == "stats_glob_cur.threads_count"]
+    sender_calls = list(fini.calls("stats_files_send"))
+    if st and X.show(st[0].children[1]) == "global_config.n_threads" and sender_calls and fini.cfg.dominates(st[0], sender_calls[0]):
+        ck.holds("C20.6", "threads-count", st[0].where, "threads_count = n_threads is set before the records are sent / written", cfg)
+    else:
+        ck.violated("C20.6", "threads-count", fini.where, "stats_glob_cur.threads_count is not set to the thread count before the statistics are sent or written", cfg)
+    # received blocks are written with the same int64 prefix as local ones
+    wr = list(rcv.calls("file_write_chunk"))
+    sizes = [X.const_int(X.callee_args(c)[2]) for c in wr]
+    if sizes.count(8) == 1 and len(wr) == 3:
+        ck.holds("C20.6", "transfer-layout", wr[0].where, "global record verbatim; every block as int64 byte count + bytes, like the local writer", cfg)
+    else:
+        ck.violated("C20.6", "transfer-layout", rcv.where, "received records are not written in the local layout (sizes %s)" % sizes, cfg)
